@@ -4,6 +4,7 @@
 package objects
 
 import (
+	"errors"
 	"io"
 
 	"github.com/wrgl/wrgl/pkg/encoding"
@@ -310,6 +311,9 @@ func (t *TableProfile) ReadFrom(r io.Reader) (total int64, err error) {
 	} {
 		n, err := objline.ReadField(parser, f.label, f.f)
 		if err != nil {
+			if errors.Is(err, io.EOF) {
+				err = io.ErrUnexpectedEOF
+			}
 			return 0, err
 		}
 		total += int64(n)
